@@ -28,6 +28,11 @@ pub struct SynthSpec {
     /// 16- or even 8-byte aligned, and entries in the very last bytes of a page
     #[serde(default)]
     pub fine: u8,
+    /// Some(k): a second function in the same arena whose entry lies k+1 bytes before the end of
+    /// the first page (k in 0..4): its entry patch straddles the page boundary, and the page it
+    /// starts in is the one the main function lives in
+    #[serde(default)]
+    pub twin: Option<u8>,
 }
 
 #[derive(Serialize, Deserialize, Clone, Debug, Hash, PartialEq, Eq)]
@@ -221,6 +226,7 @@ pub fn execute(c: &HistCase, opts: &Opts) -> HistObs {
     tg.extend(targets::async_targets());
     let mut arenas: Vec<Arena> = vec![];
     let mut last_slot = vec![false; tg.len()];
+    let mut twins: Vec<(usize, u32)> = vec![];
     for (i, s) in c.synth.iter().enumerate() {
         let base = synth_base(s.class, s.page) as usize;
         let Some(a) = Arena::map(base, 2 * PAGE) else {
@@ -272,6 +278,17 @@ pub fn execute(c: &HistCase, opts: &Opts) -> HistObs {
         if room(f1) && a.put_ret_id(f1, v1 as u32) {
             arena_fakes.push((f1, v1));
         }
+        if let Some(k) = s.twin {
+            // (room: the main function's neighbourhood ends well before the page end, the
+            // page-aligned arena fake sits at `base`)
+            if off >= 256 && off + 128 < PAGE - 16 {
+                let taddr = base + PAGE - 1 - (k as usize % 4);
+                let tid = 0x7B00 + i as u32;
+                if a.put_ret_id(taddr, tid) {
+                    twins.push((taddr, tid));
+                }
+            }
+        }
         if self_counting {
             unsafe { ip::sys_mprotect(base, 2 * PAGE, libc::PROT_READ | libc::PROT_WRITE | libc::PROT_EXEC) };
         } else {
@@ -285,9 +302,13 @@ pub fn execute(c: &HistCase, opts: &Opts) -> HistObs {
         tg.push(t);
         last_slot.push(off >= PAGE - 16);
     }
+    let n_real = tg.len() - c.synth.len();
+    for (taddr, tid) in &twins {
+        tg.push(targets::synthetic_target(*taddr, Class::U, *tid as u64, format!("twin@{taddr:#x}")));
+        last_slot.push(true);
+    }
     let n = tg.len();
     let mut pristine: Vec<Vec<u8>> = tg.iter().map(|t| crate::worker::pristine_of(t.addr).unwrap_or_else(|| crate::mem::read_direct(t.addr, 32))).collect();
-    let n_real = tg.len() - c.synth.len();
     for (i, t) in tg.iter().enumerate() {
         o.targets.push(TargetObs { name: t.name.clone(), addr: t.addr as u64, orig: t.orig, class: format!("{:?}", t.class), synthetic: t.synthetic, pristine: pristine[i].clone(), last_slot: last_slot[i] });
     }
@@ -527,7 +548,7 @@ pub fn strategy_rw(max_lifetimes: usize, max_steps: usize, synth_bias_last_slot:
         prop_oneof![3 => Just(0u8), 2 => Just(1u8), 1 => Just(2u8), 1 => Just(3u8), 1 => Just(4u8)].boxed()
     };
     let fine = prop_oneof![3 => Just(0u8), 2 => 1u8..16, 1 => 11u8..16];
-    let synth = prop::collection::vec((0u8..5, any::<u64>(), off, prop::bool::weighted(0.3), shape, fine).prop_map(|(class, page, off, boolean, shape, fine)| SynthSpec { class, page, off: if shape % 5 == 0 && shape != 5 { off } else { off.min(0xF80) }, boolean, shape, fine }), 0..=3);
+    let synth = prop::collection::vec((0u8..5, any::<u64>(), off, prop::bool::weighted(0.3), shape, fine).prop_map(|(class, page, off, boolean, shape, fine)| SynthSpec { class, page, off: if shape % 5 == 0 && shape != 5 { off } else { off.min(0xF80) }, boolean, shape, fine, twin: if (page >> 40) % 3 == 0 { Some((page >> 32) as u8 % 4) } else { None } }), 0..=3);
     // few targets so that repetition on one target is common
     let step = prop_oneof![
         3 => (0u8..12, kind_strategy(), 0u8..4).prop_map(|(t, kind, k)| Step::Install { t, kind, k }),
